@@ -130,6 +130,20 @@ class SeqV(Val):
         self.at, self.length, self.name = at, length, name
 
 
+class FilterV(Val):
+    """[elt(x) for x in base if cond(x)] over a contract iterable: base (IterV/SeqV), cond(k) -> Bool formula, elt(k) -> Val"""
+
+    def __init__(self, base, cond, elt):
+        self.base, self.cond, self.elt = base, cond, elt
+
+
+class MapV(Val):
+    """{key(x): value(x) for x in base} over a contract iterable: base, kv(k) -> (key Val, value Val)"""
+
+    def __init__(self, base, kv):
+        self.base, self.kv = base, kv
+
+
 class IterV(Val):
     """An iterable given by a contract: element sequence at(k) for 0<=k<length, evaluated once (A-EVAL)."""
 
@@ -884,6 +898,21 @@ class Interp:
             return self.call(f, args, kwargs)
         if isinstance(node, (ast.ListComp, ast.GeneratorExp, ast.SetComp)):
             return self.comprehension(node, env)
+        if isinstance(node, ast.DictComp):
+            if len(node.generators) != 1 or node.generators[0].ifs:
+                raise Unsupported('dict comprehension with conditions / nested generators')
+            g = node.generators[0]
+            it = self.eval(g.iter, env)
+            if isinstance(it, ObjV) and '__iter__' in it.fields:
+                it = self.call(it.fields['__iter__'], [it], {})
+            if not isinstance(it, (IterV, SeqV)):
+                raise Unsupported('dict comprehension over %s' % type(it).__name__)
+
+            def kv(k, _it=it, _env=dict(env)):
+                inner = dict(_env)
+                self.assign(g.target, _it.at(k), inner)
+                return self.eval(node.key, inner), self.eval(node.value, inner)
+            return MapV(it, kv)
         if isinstance(node, ast.Lambda):
             a = node.args
             if a.vararg or a.kwarg or a.kwonlyargs or a.defaults or a.posonlyargs:
@@ -940,6 +969,20 @@ class Interp:
                 return self.eval(node.elt, inner)
             facts = getattr(it, 'facts', None)
             return IterV(at, it.length, 'map(%s)' % it.name, facts)
+        if isinstance(it, (IterV, SeqV)) and g.ifs and isinstance(node, (ast.GeneratorExp, ast.ListComp)):
+            # pure filter(+map) over a contract iterable: kept as a descriptor (base sequence, condition, element)
+            def cond(k, _it=it, _env=dict(env)):
+                inner = dict(_env)
+                self.assign(g.target, _it.at(k), inner)
+                n0 = len(self.path.decisions)
+                cs = [truthy(self.eval(c, inner)) for c in g.ifs]
+                return And(*cs) if len(cs) > 1 else cs[0]
+
+            def elt(k, _it=it, _env=dict(env)):
+                inner = dict(_env)
+                self.assign(g.target, _it.at(k), inner)
+                return self.eval(node.elt, inner)
+            return FilterV(it, cond, elt)
         if not isinstance(it, (TupleV, ListV)):
             raise Unsupported('comprehension over %s' % type(it).__name__)
         out = []
